@@ -18,7 +18,7 @@ def streams(tier, seed):
     exh = list(flat.exhaustive_cases(4 if tier == "quick" else 5))
     if tier == "quick":
         exh = [c for i, c in enumerate(exh) if c["n"] <= 3 or i % 7 == seed % 7]
-    return [("flat_exhaustive", exh), ("flat_random", rand)]
+    return [("flat_exhaustive", exh), ("flat_random", rand), ("flat_deep", list(flat.deep_cases()))]
 
 
 def main(tier, seed, prop=PROP, prop_bits=PROP_BITS):
